@@ -93,6 +93,8 @@ def inject(unit, scratch):
         # the single non-additive rule (indexmap -> model); recorded in evidence
         fp = os.path.join(scratch, file_rel)
         c = open(fp).read()
+        if new in c:
+            continue
         if c.count(old) != 1:
             from rustlex import ExtractError
             raise ExtractError(f'kani unit {unit["unit"]}: replace anchor `{old}` found {c.count(old)} times in {file_rel}')
@@ -292,11 +294,12 @@ def playback(unit, h, scratch, workdir):
                     gen = gen[:gen.find('\n}\n') + 3] if '\n}\n' in gen else gen[:3000]
     if not testname:
         return dict(attempted=True, reproduced=False, text='no concrete playback test generated\n' + out[-1500:])
-    env = dict(ENV, CARGO_PROFILE_TEST_LTO='off', CARGO_PROFILE_DEV_LTO='off')
-    pcmd = ['cargo', 'kani', 'playback', '-Z', 'concrete-playback', '-p', unit['package'], '--target-dir', TARGET + '-playback', '--', testname]
+    env = dict(ENV, CARGO_PROFILE_TEST_LTO='off', CARGO_PROFILE_DEV_LTO='off', CARGO_TARGET_DIR=TARGET + '-playback')
+    pcmd = ['cargo', 'kani', 'playback', '-Z', 'concrete-playback', '-p', unit['package'], '--', 'kani_concrete_playback']
     rc2, out2, wall2 = sh(pcmd, cwd=scratch, timeout=1800, env=env)
     reproduced = ('panicked at' in out2 or 'FAILED' in out2) and 'test result: FAILED' in out2
-    txt = f"$ {' '.join(pcmd)}\n---- generated test ----\n{gen}\n---- native run ----\n{out2[-3000:]}"
+    keep = '\n'.join(l for l in out2.splitlines() if re.match(r'^(test |thread |failures:|    \w|test result|\s+left:|\s+right:|---- )', l) or 'panicked' in l)
+    txt = f"$ CARGO_TARGET_DIR={TARGET}-playback {' '.join(pcmd)}\n---- generated test (first) ----\n{gen[:2500]}\n---- native run ----\n{keep[-3000:]}"
     return dict(attempted=True, reproduced=reproduced, text=txt)
 
 
